@@ -1,0 +1,19 @@
+//go:build verif
+
+package server
+
+// Hooks for the verification harness (build tag `verif`); not compiled otherwise. Read-only.
+
+// VerifSessDump returns, for the session bookkeeping checked by the verification harness,
+// run id -> Login.Hostname of the Control stored in the ControlManager, and
+// proxy name -> Login.Hostname of the session whose proxy is stored in the proxy Manager.
+func (svr *Service) VerifSessDump() (byRunID map[string]string, names map[string]string) {
+	byRunID = map[string]string{}
+	svr.ctlManager.mu.RLock()
+	for id, ctl := range svr.ctlManager.ctlsByRunID {
+		byRunID[id] = ctl.loginMsg.Hostname
+	}
+	svr.ctlManager.mu.RUnlock()
+	names = svr.pxyManager.VerifDump()
+	return
+}
